@@ -221,7 +221,7 @@ def cj_cases(ctx, quick):
 
 # ------------------------------------------------------------------ tables, presets, classify_assignment, select_best_among_inconsistent
 PRE_TAB = r"""From Coq Require Import QArith.
-From IQ Require Import Junctions Assigner.
+From IQ Require Import Junctions AssignerDefs.
 From IQ.gen Require Import Tables.
 Open Scope Z_scope.
 (* (event type, (value, (consistent, minor, major, intronic), cost)) read from the real enum / predicates / cost dictionary *)
@@ -237,7 +237,7 @@ Definition prop (c:T) : bool :=
   match q with Some x => Qle_bool 0 x && Qle_bool x 1 && implb co (Qeq_bool x 0) && implb ma (Qle_bool (1 # 2) x) | None => negb (co || mi || ma) end.
 """
 PRE_PRESET = r"""From Coq Require Import QArith.
-From IQ Require Import Junctions Assigner.
+From IQ Require Import Junctions AssignerDefs.
 From IQ.gen Require Import Tables.
 Open Scope Z_scope.
 Definition params_eqb (a b:params) : bool :=
@@ -255,7 +255,7 @@ Definition check (c:T) : bool :=
   (ARM_value (ms_resolve_ambiguous (MS_preset n)) =? ra) && Bool.eqb (ms_correct_minor_errors (MS_preset n)) cm.
 Definition prop (c:T) : bool := let '(n, d, p, _) := c in match d with Some _ => true | None => (p_delta p =? ms_delta (MS_preset n)) && (0 <=? p_delta p) end.
 """
-PRE_CLASSIFY = r"""From IQ Require Import Junctions Assigner.
+PRE_CLASSIFY = r"""From IQ Require Import Junctions AssignerDefs.
 From IQ.gen Require Import Tables.
 Open Scope Z_scope.
 (* (event types per selected isoform, result of the real classify_assignment) *)
@@ -268,7 +268,7 @@ Definition prop (c:T) : bool :=
   implb (existsb ev_major ev) (rmem (snd c) RAT_is_inconsistent).
 """
 PRE_SELECT = r"""From Coq Require Import QArith Floats.
-From IQ Require Import Junctions Assigner AssignerScore.
+From IQ Require Import Junctions AssignerDefs AssignerScore.
 From IQ.gen Require Import Tables.
 Open Scope Z_scope.
 Inductive fres := FSel (ids:list Z) (pen:float) | FRaises (k:Z).
@@ -430,7 +430,7 @@ def derive_reads(w, P, rnd, per_isoform):
             for rep in range(per_isoform):
                 kind = rnd.choice(["fl", "fl", "jit", "jit", "del", "ins", "tr5", "tr3", "trboth", "mono", "jit+tr",                    # positives
                                    "jit2", "ext", "ext",                                                                              # band
-                                   "skip", "skip", "extra", "retain", "altsite", "altsite", "farend", "farend", "skip+jit", "retain+tr"])  # negatives
+                                   "skip", "skip", "extra", "retain", "altsite", "altsite", "farend", "farend", "skip+jit", "retain+tr", "apa", "apa"])  # negatives
                 ex = list(full); polya = True; indel = None; src = tid; label = "pos"
                 def trunc(ex, side):
                     """cut on the genomic left (side 0) or right (side 1), inside an exon; returns exons, whether the 3' end was kept"""
@@ -474,6 +474,13 @@ def derive_reads(w, P, rnd, per_isoform):
                         j = rnd.randint(0, k - 1); a, b = ex[j]; sh = rnd.randint(2 * tol + 8, 2 * tol + 260) * rnd.choice([-1, 1])
                         if j > 0 and (j == k - 1 or rnd.random() < .5): ex[j] = (a + sh, b)
                         else: ex[j] = (a, b + sh)
+                    elif kind == "apa":
+                        # polyA tail 51..300 bases before the annotated 3' end, inside the last exon (alternative polyA site; apa_delta = 50)
+                        e3 = ex[-1] if plus else ex[0]; dist = rnd.randint(P.apa_delta + 1, 6 * P.apa_delta)
+                        if e3[1] - e3[0] + 1 > dist + 10:
+                            if plus: ex = ex[:-1] + [(e3[0], e3[1] - dist)]
+                            else: ex = [(e3[0] + dist, e3[1])] + ex[1:]
+                            polya = True; src = tid
                     elif kind == "farend":
                         s_ = rnd.choice([0, 1]); amt = rnd.randint(2 * P.minor_exon_extension + 5, 500)
                         if rnd.random() < .5 and k > 2: ex = trunc(ex, s_); polya = False
@@ -483,7 +490,7 @@ def derive_reads(w, P, rnd, per_isoform):
                 if not valid_exons(ex, L): continue
                 if indel and not any(b - a + 1 > 50 for a, b in ex[len(ex) // 2:len(ex) // 2 + 1]): indel = None
                 name = "%s|%s|%d" % (kind, tid, n); n += 1
-                w.add_read(name, g["chr"], ex, g["strand"], polya=polya, indel=indel, truth=dict(kind=kind, label=label, gene=g["id"], isoform=src, derived_from=tid))
+                w.add_read(name, g["chr"], ex, g["strand"], polya=polya, indel=indel, truth=dict(kind=kind, label=label, gene=g["id"], isoform=src, derived_from=tid, polya=bool(polya), strand=g["strand"]))
                 if label == "pos" and a_rich_end(w.reads[-1]):
                     # the (random) genome is A-rich at the read's 3' end or T-rich at its 5' end: the read carries a polyA-like signal that is not a tail at
                     # T's 3' end, which the property does not cover - generated, not judged
@@ -501,14 +508,14 @@ def a_rich_end(read, win=16, need=10, span=80):
 RAT_NAMES = ["unique", "noninformative", "intergenic", "ambiguous", "unique_minor_difference", "inconsistent", "inconsistent_non_intronic", "inconsistent_ambiguous", "suspended"]
 
 PRE_ASSIGN = r"""From Coq Require Import QArith.
-From IQ Require Import Intervals Junctions Assigner.
+From IQ Require Import Intervals Junctions AssignerDefs.
 From IQ.gen Require Import Tables Prims.
 Open Scope Z_scope.
 (* per data set: the strategy's parameters and the annotation per chromosome *)
 %s
-(* (data set, chromosome, read) *)
-Definition T := (Z * Z * rcase)%%type.
-Definition verdict_of (c:T) : verdict := let '(j, ch, r) := c in judge (PP j) (ann j ch) r.
+(* (data set, chromosome, read, polyA/polyT tail the generator attached) *)
+Definition T := (Z * Z * rcase * pobs)%%type.
+Definition verdict_of (c:T) : verdict := let '(j, ch, r, po) := c in judge_pa (PP j) (ann j ch) (strands j ch) r po.
 Definition check (c:T) : bool := true.
 Definition prop (c:T) : bool := match verdict_of c with Bad _ => false | _ => true end.
 Definition code (v:verdict) : Z := match v with Positive_ok => 0 | Negative_ok => 1 | Not_judged => 2 | Bad k => 10 + k end.
@@ -620,7 +627,7 @@ def inprocess_job(job):
 
 def assignment_cases(jobs):
     """(preamble, [(term, obj)], problems) for a list of finished runs"""
-    pp = []; annl = []; cases = []; problems = []
+    pp = []; annl = []; strl = []; cases = []; problems = []
     for ji, job in enumerate(jobs):
         world = job["world"]; chroms = world["chroms"]
         ids = {}; iso_by_chr = collections.defaultdict(list); exons_by_id = {}
@@ -630,6 +637,7 @@ def assignment_cases(jobs):
         pp.append("  | %d => params_of (MS_preset MSN_%s)" % (ji, job["matching"]))
         for ci, c in enumerate(chroms):
             annl.append("  | %d, %d => %s" % (ji, ci, clist(iso_by_chr[c], lambda i: "(%d, %s)" % (i[0], civs(i[1])))))
+            strl.append("  | %d, %d => %s" % (ji, ci, clist([(ids[t], 1 if g["strand"] == "+" else -1) for g in world["genes"] if g["chr"] == c for t in g["isoforms"]], lambda p: "(%d, %s)" % (p[0], cz(p[1])))))
         by_read = collections.OrderedDict()
         for r in job["records"]: by_read.setdefault(r["read_id"], []).append(r)
         for name, tr in job["truth"].items():
@@ -648,13 +656,16 @@ def assignment_cases(jobs):
             if [tuple(e) for e in rex] != [tuple(e) for e in tr["exons"]]:
                 problems.append(("exons-differ", tag, name))          # the exons column is the alignment (C16); the TSV's exons are what is judged
             src = ids[tr["isoform"]] if tr.get("isoform") else None
-            term = "(%d, %d, mkRC %s %s RAT_%s %s)" % (ji, chroms.index(tr["chr"]), civs(rex), copt(src, cz), typ, czs([ids[t] for t in reported]))
+            po = (-1, -1)
+            if tr.get("polya"): po = (rex[-1][1], -1) if tr.get("strand") == "+" else (-1, rex[0][0])
+            term = "(%d, %d, mkRC %s %s RAT_%s %s, mkPO %s %s)" % (ji, chroms.index(tr["chr"]), civs(rex), copt(src, cz), typ, czs([ids[t] for t in reported]), cz(po[0]), cz(po[1]))
             cases.append((term, dict(read=name, kind=tr["kind"], label=tr["label"], chr=tr["chr"], exons=rex, source=tr.get("isoform"), derived_from=tr.get("derived_from"),
                                      assignment_type=typ, reported=reported, events=[l["assignment_events"] for l in lines], matching=job["matching"], seed=job["seed"],
-                                     annotation={t: exons_by_id[t] for g in world["genes"] if g["chr"] == tr["chr"] for t in g["isoforms"]}, args=job.get("args"), via=job.get("via", "isoquant.py"),
+                                     annotation={t: exons_by_id[t] for g in world["genes"] if g["chr"] == tr["chr"] for t in g["isoforms"]}, tail=po, strand=tr.get("strand"), args=job.get("args"), via=job.get("via", "isoquant.py"),
                                      per_isoform=job["per_isoform"], n_chr=job.get("n_chr", 2))))
     defs = ("Definition PP (j:Z) : params :=\n  match j with\n" + "\n".join(pp) + "\n  | _ => params_of MS_default\n  end.\n" +
-            "Definition ann (j c:Z) : list isoform :=\n  match j, c with\n" + "\n".join(annl) + "\n  | _, _ => []\n  end.")
+            "Definition ann (j c:Z) : list isoform :=\n  match j, c with\n" + "\n".join(annl) + "\n  | _, _ => []\n  end.\n" +
+            "Definition strands (j c:Z) : list (Z * Z) :=\n  match j, c with\n" + "\n".join(strl) + "\n  | _, _ => []\n  end.")
     return PRE_ASSIGN % defs, cases, problems
 
 BATCH = 12
